@@ -472,7 +472,17 @@ pub fn gen_read_scn(id: &str, rng: &Rng, tier: Tier) -> ReadScn {
             } else {
                 any_input(rng, fmt, max_recs, max_noise)
             };
-            let cfg = gen_cfg(rng, &input, false);
+            let mut cfg = gen_cfg(rng, &input, false);
+            if id == "C19" && rng.chance(1, 5) {
+                // reads that fail after the set had been filled before (refused growth, I/O error):
+                // what comes back is still a record set that has to survive serialisation
+                if rng.chance(1, 2) {
+                    cfg.policy = gen_refusing_policy(rng, cfg.cap);
+                } else {
+                    let est_calls = 2 * input.len() / cfg.cap.max(1) + 6;
+                    cfg.faults.push(Fault { call: 1 + rng.small(est_calls), kind: rng.pick(FAULT_KINDS).to_string() });
+                }
+            }
             let m = model::build(fmt, &input);
             let n = m.items.len();
             let mix = OpMix { next: 4, owned: 2, set: 2, exact: 2, seek: 0, iter: 1 };
